@@ -14,7 +14,8 @@ LEVEL = "exploration"
 BUDGET = {"quick": {"runs": 1400, "wall": 55}, "thorough": {"runs": 40000, "wall": 570}}
 RULE = ("Each run: one (kex, cipher, MAC, compression, host key algorithm) combination -- seed index walks "
         "kex x cipher x MAC pairwise -- 0-2 rekeys initiated by either side, channel traffic in "
-        "every epoch, latency and fragmentation drawn per run.")
+        "every epoch, latency and fragmentation drawn per run; in a quarter of the runs the client offers different "
+        "ciphers and MACs for the two directions.")
 COMPONENTS = {"real": ["paramiko Transport/kex/packetizer/channel on both peers", "cryptography", "PyNaCl"],
               "simulated": ["socket", "clock", "scheduling", "entropy (seeded os.urandom and key generation)"],
               "oracle": ["sim/wiretap.py: independent decoder + RFC 7.2 derivation"]}
@@ -48,23 +49,51 @@ def scenario(sim):
         k.p_frag = (0.0, 0.3)[sim.choose(2)]
         k.p_short = (0.0, 0.2)[sim.choose(2)]
     link = Link(sim, latency=(lat, lat), knobs_a=ka, knobs_b=kb)
-    p = ssh.tapped_pair(sim, link=link, host_keys=(ssh.HOSTKEY_ALGOS[halgo],))
-    for t in (p.tc, p.ts):
-        ssh.configure(t, kex=kex, cipher=cipher, mac=mac, comp=comp, hostkey_algo=halgo)
+    asym = None
+    if i % 4 == 1:
+        # the client (adversary side, consistent and RFC-conforming) offers DIFFERENT ciphers and MACs for the two
+        # directions; the unmodified server has to key each direction for its own algorithm
+        cipher2 = CIPHERS[(i // 4 + sim.choose(len(CIPHERS))) % len(CIPHERS)]
+        mac2 = MACS[(i // 4 + 1 + sim.choose(len(MACS) - 1)) % len(MACS)]
+        asym = {"enc_s2c": cipher2, "mac_s2c": mac2}
+        from paramiko import Transport
+        p = ssh.tapped_pair(sim, link=link, host_keys=(ssh.HOSTKEY_ALGOS[halgo],),
+                            client_cls=ssh.asymmetric_client(Transport, cipher, cipher2, mac, mac2))
+        ssh.configure(p.tc, kex=kex, cipher=[cipher, cipher2], mac=[mac, mac2], comp=comp, hostkey_algo=halgo)
+        ssh.configure(p.ts, kex=kex, comp=comp, hostkey_algo=halgo)
+        sim.probe("asymmetric_directions")
+    else:
+        p = ssh.tapped_pair(sim, link=link, host_keys=(ssh.HOSTKEY_ALGOS[halgo],))
+        for t in (p.tc, p.ts):
+            ssh.configure(t, kex=kex, cipher=cipher, mac=mac, comp=comp, hostkey_algo=halgo)
     nrekey = (0, 1, 1, 2)[sim.choose(4)]
-    desc = {"kex": kex, "cipher": cipher, "mac": mac, "comp": comp, "hostkey": halgo, "rekeys": nrekey}
-    p.start()
-    p.wait_server()
-    p.auth_password()
-    ch = p.tc.open_session()
-    sch = p.ts.accept(30)
-    if sch is None:
-        raise Violation(("C04", "session-failed", "accept"), "server accept() failed", desc)
-    ok = ssh.echo_round(sim, ch, sch, 1 + sim.choose(3000), 1 + sim.choose(3000))
-    for r in range(nrekey):
-        who = p.tc if sim.choose(2) == 0 else p.ts
-        who.renegotiate_keys()
-        ok = ssh.echo_round(sim, ch, sch, 1 + sim.choose(3000), 1 + sim.choose(3000)) and ok
+    desc = {"kex": kex, "cipher": cipher, "mac": mac, "comp": comp, "hostkey": halgo, "rekeys": nrekey, "asymmetric": asym}
+    stage = "key exchange"
+    try:
+        p.start()
+        p.wait_server()
+        stage = "authentication"
+        p.auth_password()
+        stage = "channel"
+        ch = p.tc.open_session()
+        sch = p.ts.accept(30)
+        if sch is None:
+            raise Violation(("C04", "session-failed", "accept"), "server accept() failed", desc)
+        ok = ssh.echo_round(sim, ch, sch, 1 + sim.choose(3000), 1 + sim.choose(3000))
+        for r in range(nrekey):
+            stage = "re-key %d" % (r + 1)
+            who = p.tc if sim.choose(2) == 0 else p.ts
+            who.renegotiate_keys()
+            ok = ssh.echo_round(sim, ch, sch, 1 + sim.choose(3000), 1 + sim.choose(3000)) and ok
+    except Violation:
+        raise
+    except Exception as e:
+        if type(e).__name__ in ("SimAbort", "SimBudget", "SimDeadlock"):
+            raise
+        # two honest peers that derive their keys per RFC understand each other: a session that breaks is the symptom
+        raise Violation(("C04", "session-failed", stage.split(" ")[0], type(e).__name__, "asymmetric" if asym else "symmetric"),
+                        "honest session broke during %s: %r (client exc %r, server exc %r; tap: %s)"
+                        % (stage, e, p.tc.get_exception(), p.ts.get_exception(), p.tap.error), desc)
     if not ok:
         raise Violation(("C04", "session-failed", "echo"), "channel echo returned wrong data", desc)
     ssh.quiesce(sim, [link], (), settle=0.2, limit=30)
